@@ -314,6 +314,22 @@ func (m *Model) framesFor(entry *ssa.Function, target *ssa.Function) []*frame {
 			out = append(out, m.lexicalFrame(fr, target))
 			return
 		}
+		// the target is a method that this function turns into a bound method value (x.m)
+		if target.Parent() == nil {
+			for _, b := range fr.fn.Blocks {
+				for _, ins := range b.Instrs {
+					if mc, ok := ins.(*ssa.MakeClosure); ok && len(mc.Bindings) == 1 {
+						if w, ok := mc.Fn.(*ssa.Function); ok && strings.HasSuffix(w.Name(), "$bound") {
+							for _, t := range m.funcTargets(mc) {
+								if t == target {
+									out = append(out, &frame{fn: target, caller: fr, recv: mc.Bindings[0], depth: fr.depth + 1})
+								}
+							}
+						}
+					}
+				}
+			}
+		}
 		var visit func(f *ssa.Function, base *frame)
 		visit = func(f *ssa.Function, base *frame) {
 			m.eachCall(f, func(c ssa.CallInstruction) {
@@ -347,7 +363,14 @@ func (m *Model) casScanCell(v ssa.Value, fn *ssa.Function) (bool, string) {
 	if !ok || ld.Op != token.MUL {
 		// value may be a pointer to the cell (passed to a helper)
 		if al, ok := v.(*ssa.Alloc); ok {
-			return m.cellIsCasScan(al, fn)
+			if ok2, why := m.cellIsCasScan(al, fn); ok2 {
+				return true, ""
+			} else if st := singleStore(al); st != nil {
+				// a cell that holds what a read helper returned
+				return m.casViaTerms(st.Val, fn, why)
+			} else {
+				return false, why
+			}
 		}
 		return m.casViaTerms(v, fn, "not a load of a scanned cell")
 	}
@@ -421,8 +444,36 @@ func (m *Model) casPredicateHelper(fn *ssa.Function) (existing, expected int, ok
 	// find a comparison *pA == *pB between two pointer params
 	c := newCut()
 	ea, eb := -1, -1
-	paramIdx := func(v ssa.Value) int {
+	var paramIdx func(v ssa.Value) int
+	paramIdx = func(v ssa.Value) int {
 		v = stripConv(v)
+		// a field of a small struct parameter (`check.expected` of a value receiver): the parameter
+		switch x := v.(type) {
+		case *ssa.Field:
+			return paramIdx(x.X)
+		case *ssa.UnOp:
+			if fa, ok := x.X.(*ssa.FieldAddr); ok && x.Op == token.MUL {
+				if al, ok := fa.X.(*ssa.Alloc); ok {
+					if st := singleStore(al); st != nil {
+						return paramIdx(st.Val)
+					}
+				}
+				if p, ok := fa.X.(*ssa.Parameter); ok {
+					return paramIdx(p)
+				}
+			}
+			if x.Op == token.MUL {
+				// *(check.expected)
+				if inner, ok := x.X.(*ssa.UnOp); ok && inner.Op == token.MUL {
+					if _, isFA := inner.X.(*ssa.FieldAddr); isFA {
+						return paramIdx(inner)
+					}
+				}
+				if f, ok := x.X.(*ssa.Field); ok {
+					return paramIdx(f)
+				}
+			}
+		}
 		if p, ok := v.(*ssa.Parameter); ok {
 			// passed by value
 			for i, q := range fn.Params {
@@ -460,6 +511,11 @@ func (m *Model) casPredicateHelper(fn *ssa.Function) (existing, expected int, ok
 					}
 				}
 				c.cutEdge(iff.Block(), eq)
+			} else if _, isPtr := other.Type().Underlying().(*types.Pointer); isPtr {
+				if i := paramIdx(other); i >= 0 {
+					eb = i
+					c.cutEdge(iff.Block(), eq)
+				}
 			}
 			continue
 		}
@@ -481,7 +537,65 @@ func (m *Model) casPredicateHelper(fn *ssa.Function) (existing, expected int, ok
 		}
 	}
 	if ea < 0 || eb < 0 {
-		return 0, 0, false
+		// a wrapper: after checks of its own it returns what an inner predicate helper says about
+		// two of ITS parameters, and it cannot return nil in any other way
+		var inner *ssa.Call
+		m.eachCall(fn, func(cl ssa.CallInstruction) {
+			if call, ok := cl.(*ssa.Call); ok {
+				if g := call.Common().StaticCallee(); g != nil && g != fn && m.inPkg(g) {
+					if _, _, ok := m.casPredicateHelper(g); ok {
+						inner = call
+					}
+				}
+			}
+		})
+		if inner == nil {
+			return 0, 0, false
+		}
+		gi, gx, _ := m.casPredicateHelper(inner.Common().StaticCallee())
+		args := inner.Common().Args
+		pa, pb := paramIdx(args[gi]), paramIdx(args[gx])
+		if p, ok := stripConv(args[gi]).(*ssa.Parameter); ok {
+			for i, q := range fn.Params {
+				if q == p {
+					pa = i
+				}
+			}
+		}
+		if p, ok := stripConv(args[gx]).(*ssa.Parameter); ok {
+			for i, q := range fn.Params {
+				if q == p {
+					pb = i
+				}
+			}
+		}
+		if pa < 0 || pb < 0 {
+			return 0, 0, false
+		}
+		for _, ret := range returnsOf(fn) {
+			v := ret.Results[0]
+			if v == ssa.Value(inner) {
+				continue
+			}
+			if cst, isC := v.(*ssa.Const); isC && cst.Value == nil {
+				return 0, 0, false // a nil return that bypasses the inner predicate
+			}
+			if _, isMI := v.(*ssa.MakeInterface); isMI {
+				continue
+			}
+			if call, isCall := v.(*ssa.Call); isCall {
+				if f := call.Common().StaticCallee(); f != nil && f.Pkg != nil && (f.Pkg.Pkg.Path() == "fmt" || f.Pkg.Pkg.Path() == "errors") {
+					continue
+				}
+			}
+			if ld, isLd := v.(*ssa.UnOp); isLd {
+				if _, isG := ld.X.(*ssa.Global); isG {
+					continue
+				}
+			}
+			return 0, 0, false
+		}
+		return pa, pb, true
 	}
 	reach := entryReach(fn, c)
 	for _, ret := range returnsOf(fn) {
@@ -490,6 +604,38 @@ func (m *Model) casPredicateHelper(fn *ssa.Function) (existing, expected int, ok
 		}
 	}
 	return ea, eb, true
+}
+
+// structArgField: for an argument that is a small struct literal holding one value (a wrapper
+// such as casCheck{expected: p}), the value stored in it; otherwise the argument itself.
+func structArgField(arg ssa.Value) ssa.Value {
+	v := stripConv(arg)
+	ld, ok := v.(*ssa.UnOp)
+	if !ok || ld.Op != token.MUL {
+		return arg
+	}
+	al, ok := ld.X.(*ssa.Alloc)
+	if !ok {
+		return arg
+	}
+	pt, ok := al.Type().Underlying().(*types.Pointer)
+	if !ok {
+		return arg
+	}
+	st, ok := pt.Elem().Underlying().(*types.Struct)
+	if !ok || st.NumFields() != 1 || al.Referrers() == nil {
+		return arg
+	}
+	for _, ref := range *al.Referrers() {
+		if fa, ok := ref.(*ssa.FieldAddr); ok && fa.Referrers() != nil {
+			for _, r2 := range *fa.Referrers() {
+				if s2, ok := r2.(*ssa.Store); ok && s2.Addr == ssa.Value(fa) {
+					return s2.Val
+				}
+			}
+		}
+	}
+	return arg
 }
 
 func (m *Model) ruleCAS(r *Results) {
@@ -614,7 +760,7 @@ func (m *Model) ruleCAS(r *Results) {
 								args := call.Common().Args
 								exOK, why := m.casScanCell(args[ei], K)
 								expIsP := false
-								rv, rfr := m.resolve(args[xi], fr)
+								rv, rfr := m.resolve(structArgField(args[xi]), fr)
 								if al, ok := rv.(*ssa.Alloc); ok {
 									if st := singleStore(al); st != nil {
 										sv, _ := m.resolve(st.Val, rfr)
